@@ -231,7 +231,7 @@ INJ_K = KA + ",o_pred,o_rb,o_arena"
 SPECS["C18"] = {
     "quick": [M("maptree", 4, INJ_M, pay="track", inject=1), M("settree", 4, INJ_M, pay="track", inject=1), K("ktree", 8, 0, "fleby,clear,o_pred,o_rb,o_arena", mode="shape", inject=1), FS(0, 31, "o_query,o_struct", inject=1), FS(-7, 92, "o_query,o_struct", inject=1), F("maptree", INJ_M, sizes="9,16,17", inject=1), F("settree", INJ_M, sizes="9,16,17", inject=1), F("maplist", INJ_M, sizes="9,17", inject=1), F("setlist", INJ_M, sizes="9,17", inject=1), F("ktree", "fl,fle,fleby,get,o_pred,o_rb,o_arena", sizes="9,16,17", inject=1), F("klist", "fl,fle,fleby,get,o_pred,o_rb", sizes="9,17", inject=1), K("ktree", 4, 1, INJ_K, inject=1), M("maptree", 4, INJ_M, inject=1), M("settree", 4, INJ_M, inject=1), M("maplist", 4, INJ_M, inject=1), M("setlist", 4, INJ_M, inject=1),
               K("ktree", 3, 2, INJ_K, inject=1), K("klist", 3, 2, INJ_K, inject=1), S(0, 31, SA + ",o_query,o_struct", inject=1), S(-7, 92, SA + ",o_query,o_struct", inject=1)],
-    "thorough": [M("maptree", 4, INJ_M, pay="track", inject=1), M("settree", 4, INJ_M, pay="track", inject=1), FS(0, 31, "o_query,o_struct", inject=1), FS(-7, 92, "o_query,o_struct", inject=1), F("maptree", INJ_M, sizes="9,16,17", inject=1), F("settree", INJ_M, sizes="9,16,17", inject=1), F("maplist", INJ_M, sizes="9,17,33,40", inject=1), F("setlist", INJ_M, sizes="9,17,33,40", inject=1), F("ktree", "fl,fle,fleby,get,o_pred,o_rb,o_arena", sizes="9,16,17", inject=1), F("klist", "fl,fle,fleby,get,o_pred,o_rb", sizes="9,17,33,40", inject=1), M("maptree", 5, INJ_M, inject=1), M("settree", 5, INJ_M, inject=1), M("maptree", 4, MA + ",o_ref,o_handle,o_rb,o_arena", inject=2), M("settree", 4, MA + ",o_ref,o_handle,o_rb,o_arena", inject=2),
+    "thorough": [K("ktree", 8, 1, "get,o_get,o_rb,o_arena", mode="shape", inject=1, cap_s=2400, label="ktree N=8 T=1 shape inject<=1 (a full arena, a moving clock and a panic at every callback)"), M("maptree", 4, INJ_M, pay="track", inject=1), M("settree", 4, INJ_M, pay="track", inject=1), FS(0, 31, "o_query,o_struct", inject=1), FS(-7, 92, "o_query,o_struct", inject=1), F("maptree", INJ_M, sizes="9,16,17", inject=1), F("settree", INJ_M, sizes="9,16,17", inject=1), F("maplist", INJ_M, sizes="9,17,33,40", inject=1), F("setlist", INJ_M, sizes="9,17,33,40", inject=1), F("ktree", "fl,fle,fleby,get,o_pred,o_rb,o_arena", sizes="9,16,17", inject=1), F("klist", "fl,fle,fleby,get,o_pred,o_rb", sizes="9,17,33,40", inject=1), M("maptree", 5, INJ_M, inject=1), M("settree", 5, INJ_M, inject=1), M("maptree", 4, MA + ",o_ref,o_handle,o_rb,o_arena", inject=2), M("settree", 4, MA + ",o_ref,o_handle,o_rb,o_arena", inject=2),
                  M("maplist", 5, INJ_M, inject=2), M("setlist", 5, INJ_M, inject=2), M("maptree", 4, INJ_M, pay="heap", inject=1),
                  K("ktree", 3, 3, INJ_K, inject=1), K("ktree", 3, 2, INJ_K, inject=2, cap_s=1200), K("klist", 3, 3, INJ_K, inject=2), K("ktree", 8, 0, "fleby,clear,o_pred,o_rb,o_arena", mode="shape", inject=1, cap_s=900),
                  S(0, 31, SA + ",o_query,o_struct", inject=2, cap_s=1200), S(-7, 92, SA + ",o_query,o_struct", inject=1), S(0, 16, SA + ",o_query,o_struct", inject=1)],
